@@ -53,6 +53,7 @@ pub struct JobCfg {
     /// what to do with reference paths by status
     pub want: Want,
     pub profile: String,
+    pub job_time_cap_s: u64,
 }
 
 #[derive(Clone, Copy, Debug, PartialEq)]
@@ -136,7 +137,10 @@ pub fn run_job(job: &Job, specs: &[Spec], cfg: &JobCfg) -> JobOut {
 fn run_job_w<const B: u32>(job: &Job, specs: &[Spec], cfg: &JobCfg) -> JobOut {
     let t0 = Instant::now();
     engine::init(cfg.solver, cfg.timeout_ms, cfg.limits.clone(), HashMode::Concrete, cfg.io.clone());
-    engine::with(|c| c.width = B as u8);
+    engine::with(|c| {
+        c.width = B as u8;
+        c.job_deadline = Some(Instant::now() + std::time::Duration::from_secs(cfg.job_time_cap_s));
+    });
     let mut out = JobOut { tag: job.tag.clone(), code: job.code.clone(), width: job.width, ..Default::default() };
     // compile every subject once (totality: a panic here is a finding)
     let mut execs: Vec<Option<Box<dyn Executable<SymCell<B>> + '_>>> = Vec::new();
@@ -318,6 +322,11 @@ fn run_job_w<const B: u32>(job: &Job, specs: &[Spec], cfg: &JobCfg) -> JobOut {
         }
     }
     drop(execs);
+    {
+        // keep the first candidate per subject configuration (paths are explored shortest-first)
+        let mut seen = std::collections::HashSet::new();
+        out.candidates.retain(|c| seen.insert(format!("{}|{}|{:?}|{}|{}", c.backend.name(), c.level, c.mode, c.no_input, c.no_output)));
+    }
     out.stats = engine::take_stats();
     out.wall_s = t0.elapsed().as_secs_f64();
     out
